@@ -519,4 +519,63 @@ Section G4.
     cbn [app]. rewrite Hn. change (skipn 13 (repeat [] 13)) with (@nil m128).
     rewrite app_nil_r. reflexivity.
   Qed.
+
+  (* ---------------------------------------------------------------- block encryption = FIPS-197 *)
+  Lemma expand_length Nk : forall n w, length (expand sb Nk n w) = (length w + n)%nat.
+  Proof.
+    induction n as [|n IH]; intros w; [cbn; lia|].
+    cbn [expand]. rewrite IH, app_length. cbn [length]. lia.
+  Qed.
+
+  Lemma nth_of_round_keys (rk : list m128) (w : list word) n r :
+    firstn n rk = round_keys w -> (length w / 4 = n)%nat -> (r < n)%nat ->
+    nth r rk [] = round_key w r.
+  Proof.
+    intros Hrk Hn Hr.
+    assert (H : nth r (firstn n rk) [] = nth r rk []).
+    { clear -Hr. revert r rk Hr. induction n as [|n IH]; intros r rk Hr; [lia|].
+      destruct rk as [|x rk]; [destruct r; reflexivity|].
+      destruct r; [reflexivity|]. cbn [firstn nth]. apply IH. lia. }
+    rewrite <- H, Hrk. unfold round_keys. rewrite Hn.
+    rewrite (nth_indep _ [] (round_key w 0)) by (rewrite map_length, seq_length; exact Hr).
+    rewrite map_nth, seq_nth by exact Hr. reflexivity.
+  Qed.
+
+  Theorem aesni_block_eq_fips : forall key k b,
+    repo_key_expand_aesni sb key = Some k ->
+    repo_encrypt_block_aesni sb k b = aes_encrypt sb key b.
+  Proof.
+    intros key k b Hk. unfold repo_key_expand_aesni, key_expand_aesni in Hk.
+    destruct (length key =? 16)%nat eqn:H16.
+    - apply Nat.eqb_eq in H16. injection Hk as <-.
+      unfold aes_encrypt, Nr_of. rewrite H16. change (16 / 4 + 6)%nat with 10%nat.
+      change nr128 with (N.of_nat 10).
+      apply (encrypt_block_aesni_eq_Cipher sb (KeyExpansion sb key) 10); [left; reflexivity|].
+      intros r Hr.
+      apply (nth_of_round_keys _ _ 11); [apply (key_expand_128_aesni_eq key H16) | | lia].
+      unfold KeyExpansion. rewrite expand_length, H16. reflexivity.
+    - destruct (length key =? 32)%nat eqn:H32; [|discriminate Hk].
+      apply Nat.eqb_eq in H32. injection Hk as <-.
+      unfold aes_encrypt, Nr_of. rewrite H32. change (32 / 4 + 6)%nat with 14%nat.
+      change nr256 with (N.of_nat 14).
+      apply (encrypt_block_aesni_eq_Cipher sb (KeyExpansion sb key) 14); [right; reflexivity|].
+      intros r Hr.
+      apply (nth_of_round_keys _ _ 15); [| | lia].
+      + rewrite <- (key_expand_256_aesni_eq key H32). apply firstn_all2.
+        rewrite (key_expand_256_aesni_eq key H32). unfold round_keys. rewrite map_length, seq_length.
+        unfold KeyExpansion. rewrite expand_length, H32. cbn. lia.
+      + unfold KeyExpansion. rewrite expand_length, H32. reflexivity.
+  Qed.
+
+  Lemma repo_key_expand_aesni_some key : (length key = 16 \/ length key = 32)%nat ->
+    exists k, repo_key_expand_aesni sb key = Some k.
+  Proof.
+    intros [H | H]; unfold repo_key_expand_aesni, key_expand_aesni; rewrite H; cbn [Nat.eqb]; eauto.
+  Qed.
+
+  Lemma repo_encrypt_block_aesni_length k b : length (repo_encrypt_block_aesni sb k b) = 16%nat.
+  Proof.
+    unfold repo_encrypt_block_aesni, encrypt_block_aesni. destruct k as [rk nr].
+    unfold aesenclast. apply mm_xor_length.
+  Qed.
 End G4.
